@@ -30,7 +30,8 @@ PORTS = [None, 0, 1, 20, 21, 22, 79, 80, 81, 442, 443, 444, 8080, 65534, 65535, 
 HOSTS = [("h.com", "h.com", "h.com"), ("127.0.0.1", "127.0.0.1", "127.0.0.1"), ("[::1]", "::1", "[::1]"),
          ("xn--9ca.com", "é.com", "xn--9ca.com"), ("[fe80::1%eth0]", "fe80::1%eth0", "[fe80::1%eth0]"), ("h.com.", "h.com.", "h.com.")]
 USERINFO = [("", None, None), ("u@", "u", None), ("u:p@", "u", "p"), (":p@", None, "p"), ("u:@", "u", "")]
-ROUTES = ["ctor", "ctor_encoded", "ctor_encoded_zeros", "build_hp", "build_auth", "with_port", "with_port_replace", "rescheme_observed"]
+ROUTES = ["ctor", "ctor_encoded", "ctor_encoded_zeros", "build_hp", "build_auth", "with_port", "with_port_replace", "rescheme_observed",
+          "origin", "with_host_keeps_port", "with_user_keeps_port", "lazy_twin"]
 
 
 def make(route, scheme, ui, host, port):
@@ -53,6 +54,17 @@ def make(route, scheme, ui, host, port):
         return U(pre + uitext + written + "/p?q#f").with_port(port)
     if route == "with_port_replace":
         return U(pre + uitext + written + ":7/p?q#f").with_port(port)
+    if route == "origin":
+        # origin() keeps scheme, host and the port exactly as written (absent stays absent); it is defined for URLs with a scheme only
+        if not scheme:
+            raise LookupError("not applicable")
+        return U(pre + uitext + written + ("" if port is None else ":%d" % port) + "/p?q#f").origin()
+    if route == "with_host_keeps_port":
+        return U(pre + uitext + "old.example" + ("" if port is None else ":%d" % port) + "/p?q#f").with_host(bare)
+    if route == "with_user_keeps_port":
+        return U(pre + written + ("" if port is None else ":%d" % port) + "/p?q#f").with_user(user).with_password(pw)
+    if route == "lazy_twin":
+        return pickle.loads(pickle.dumps(U(pre + uitext + written + ("" if port is None else ":%d" % port) + "/p?q#f")))
     if route == "rescheme_observed":
         # the same authority first lives under another scheme (with another default port), every accessor is read there, and
         # only then the URL moves to `scheme`: nothing computed under the old scheme may survive
